@@ -101,7 +101,7 @@ def plan(tier, seed):
         shards.append({"id": "r-detspecials%02d" % i, "cls": "determinism_special_outs", "cases": dso[i::n]})
     shards.append({"id": "z-boundary00", "cls": "boundary",
                    "cases": [{"seed": "%d/C02/boundary/%d" % (seed, k), "level": "boundary", "k": k} for k in range(len(BOUNDARY))]})
-    return shards
+    return sorted(shards, key=lambda s: (not s["id"].startswith("r-detspecials"), not s["id"].startswith("r-"), s["id"]))
 
 
 # ------------------------------------------------------------------------------------------------
